@@ -1575,6 +1575,7 @@ def all_cases(ctx):
     cases += op_cases(ctx, ctx.rng("op"))
     cases += moments_cases(ctx, ctx.rng("moments"))
     cases += hist_cases(ctx, ctx.rng("hist"))
+    cases += warm_cases(ctx, ctx.rng("warm"))
     cases += getitem_var_cases(ctx, ctx.rng("getitem-var"))
     return cases
 
@@ -1676,18 +1677,43 @@ def _execute(ctx, cases, use_driver=True):
         ctx.assumption(f"linear_operator root_decomposition residual max|R R^T - Sigma| = {rres_max:.3g} (> 1e-9)")
 
 
+def _only_known_failures(ctx):
+    import fnmatch
+    known = C.known_findings(ID)
+    return not any(not any(fnmatch.fnmatch(f["key"], k["match"]) for k in known) for f in ctx.failures)
+
+
 def correspondence(ctx):
     _execute(ctx, all_cases(ctx), use_driver=True)
+    # run.py starts `search` only when there is no failure at all, and C10's two known findings fire on every run: when
+    # something broke and nothing but the known findings failed, the deep search is started here
+    if ctx.broken and _only_known_failures(ctx):
+        ctx.notes["deep_search"] = "started by correspondence (something broke, only known findings failed)"
+        _deep_search(ctx, ctx.broken)
+
+
+GETITEM_TOKENS = ("getitem", "dispatch", "new_cov", "last_idx", "rest_idx", "scale_tril", "new_mean", "covSel", "index tuple")
+
+
+def _deep_search(ctx, broken):
+    """Deeper generators for what broke.  A broken translation / proof about `__getitem__` (or any translator error — the
+    message names one statement only): the full product of warm-up x index form of the "warm then derive" histories."""
+    txt = " ".join(f"{k} {n} {d}" for k, n, d in broken)
+    if any(k == "translator" for k, _, _ in broken) or any(t in txt for t in GETITEM_TOKENS):
+        saved = {k: ctx.notes.get(k) for k in ("case_status_counts", "getitem_rejection_reasons")}
+        _execute(ctx, warm_cases(ctx, ctx.rng("warm-deep"), deep=True), use_driver=False)
+        ctx.notes["deep_search_case_status_counts"] = ctx.notes.get("case_status_counts")
+        ctx.notes.update({k: v for k, v in saved.items() if v is not None})
 
 
 def search(ctx, broken):
     """A proof or the driver tie broke: the implementation is judged against the independent exact Python
     mirror (`py_reply`), which does not depend on the Lean side."""
-    import fnmatch
-    known = C.known_findings(ID)
-    if any(not any(fnmatch.fnmatch(f["key"], k["match"]) for k in known) for f in ctx.failures):
+    if not _only_known_failures(ctx):
         return
     _execute(ctx, all_cases(ctx), use_driver=False)
+    if _only_known_failures(ctx):
+        _deep_search(ctx, broken)
 
 
 def replay(ctx, payload):
@@ -1760,7 +1786,47 @@ def _use(d, what, v, k):
         return d.entropy()
     if what == "cov":
         return d.covariance_matrix
+    if what == "stddev":
+        return d.stddev
+    if what == "confidence_region":
+        return d.confidence_region()
+    if what == "precision":
+        return d.precision_matrix
+    if what == "rsample-free":
+        return d.rsample(torch.Size([2]))
+    if what in ("cholesky", "root", "root_inv"):
+        # caches that live on the LinearOperator (linear_operator, outside /repo): a refusal of the primitive is not judged
+        try:
+            lc = d.lazy_covariance_matrix
+            return {"cholesky": lc.cholesky, "root": lc.root_decomposition, "root_inv": lc.root_inv_decomposition}[what]()
+        except Exception:
+            return None
     raise ValueError(what)
+
+
+# every quantity a MultivariateNormal (or its covariance operator) caches, touched in this order by the "warm" histories
+WARMERS = ("scale_tril", "lp-torch", "lp-lo", "rsample", "rsample-free", "variance", "stddev", "confidence_region", "cov",
+           "entropy", "precision", "cholesky", "root", "root_inv")
+
+
+def _getitem_class(idx_p, shape):
+    """Stable class name of an index expression (for failure keys): which batch entries are not `:` and what the event
+    entry is (leading unit-step slice / offset slice / stepped slice / index list / int)."""
+    full = _expand_ellipsis(list(idx_p), len(shape))
+    if full is None:
+        return "other"
+    bk = sorted({("int" if isinstance(i, int) else "list" if isinstance(i, list) else "slice")
+                 for i in full[:-1] if i != slice(None)})
+    ev, n = full[-1], shape[-1]
+    if isinstance(ev, int):
+        ek = "int"
+    elif isinstance(ev, list):
+        ek = "list"
+    else:
+        lo, hi, st = ev.indices(n)
+        ek = "step" if st != 1 else ("offset" if lo != 0 else ("all" if hi >= n else "leading"))
+    parts = (["batch-" + "+".join(bk)] if bk else []) + ([] if ek == "all" else ["event-" + ek])
+    return ",".join(parts) or "all"
 
 
 def _root_split(dist, X, S2, rtol=1e-7):
@@ -1783,6 +1849,70 @@ def _root_split(dist, X, S2, rtol=1e-7):
     return "gpytorch", resid
 
 
+def _hist_consume(r, rep, out, v2, S2, B2, n2, sc, singular):
+    """Every consumer of the result `r` of a history (filled into `out`)."""
+    import torch
+    np = _np()
+    out["cov"] = r.covariance_matrix.detach().numpy()
+    out["var"] = r.variance.detach().numpy()
+    out["sd"] = r.stddev.detach().numpy()
+    out["floor"] = _min_var()
+    if not singular:
+        tv2 = torch.tensor(v2, dtype=torch.float64)
+        # CG on a covariance scaled far away from 1 is limited by absolute thresholds inside linear_operator's
+        # CG (outside /repo): the quad-only CG path is exercised for moderate scales only
+        # (DiagLinearOperator has an exact inv_quad_logdet of its own that ignores skip_logdet_forward)
+        from linear_operator.operators import DiagLinearOperator
+        is_diag = rep == "diag" or isinstance(r.lazy_covariance_matrix, DiagLinearOperator)   # e.g. the child of d[..., i]
+        out["cfgs"] = [c for c in LP_CFGS if c != "cg-quad" or (1e-3 <= sc <= 1e3 and not is_diag)]
+        for cfg in out["cfgs"]:
+            try:
+                with _cfg_ctx(cfg):
+                    out["lp:" + cfg] = r.log_prob(tv2).detach().numpy()
+            except Exception as e:
+                out["lp:" + cfg] = e
+        try:
+            out["entropy"] = r.entropy().detach().numpy()
+        except Exception as e:
+            out["entropy"] = e
+        try:
+            out["tril"] = r.scale_tril.detach().numpy()
+        except Exception as e:
+            out["tril"] = e
+        try:
+            kr = int(r.base_sample_shape[-1])
+            cols = []
+            for j in range(kr):
+                u = np.zeros(B2 + (kr,))
+                u[..., j] = 1.0
+                cols.append(r.rsample(base_samples=torch.tensor(u)).detach().numpy() - out["mean"])
+            out["X"] = np.stack(cols, -1)
+            out["Xverdict"] = _root_split(r, out["X"], S2) if out["X"].shape[:-1] == B2 + (n2,) else ("gpytorch", float("nan"))
+        except Exception as e:
+            out["X"] = e
+            try:   # did the primitive break its contract (R R^T = A, for a non-root operator an n x n root)?
+                R = r.lazy_covariance_matrix.root_decomposition().root.to_dense().detach().numpy()
+                Rb = np.broadcast_to(R, B2 + R.shape[-2:])
+                if not _relclose(Rb @ np.swapaxes(Rb, -1, -2), S2, _cov_scale(S2), 1e-7):
+                    out["Xprim"] = float(np.max(np.abs(Rb @ np.swapaxes(Rb, -1, -2) - S2)))
+            except Exception:
+                pass
+
+
+def _hist_source_checks(res, fail, out, src_mean, src_cov, mu, S, src_exp):
+    """The operand of a history must be what it was (mean, covariance, Cholesky-path log_prob)."""
+    np = _np()
+    if not (_allclose(out["src_mean"], src_mean) and _allclose(out["src_cov"], src_cov)
+            and _allclose(src_mean, mu) and _allclose(src_cov, S)):
+        fail("source-changed", "the operand distribution's mean/covariance changed")
+    got = out["src_lp"]
+    if isinstance(got, Exception) or got.shape != src_exp.shape or \
+            not np.all(np.abs(got - src_exp) <= ATOL + RTOL * np.maximum(1.0, np.abs(src_exp))):
+        fail("source-changed", f"log_prob of the operand after the operation = "
+             f"{got if isinstance(got, Exception) else got.reshape(-1)[:3].tolist()}, expected {src_exp.reshape(-1)[:3].tolist()}")
+    return res
+
+
 def run_hist(case):
     import torch
     import gpytorch.settings as gs
@@ -1791,11 +1921,16 @@ def run_hist(case):
     rep, pre, ops = case["rep"], case["pre"], case["ops"]
     n = mu.shape[-1]
     B = mu.shape[:-1]
-    opsname = "+".join(o[0] + _sclass(o[1]) for o in ops)
-    where = f"{rep} batch={B} n={n} uses-before={pre} ops={[(o[0], o[1] if not isinstance(o[1], dict) else o[1]['rep']) for o in ops]}"
+    indep = bool(ops) and ops[-1][0] == "indep"      # terminal: to_data_independent_dist()
+    pre_s = "ALL-CACHES" if list(pre) == list(WARMERS) else pre
+    where = (f"{rep} batch={B} n={n} uses-before={pre_s} ops="
+             f"{[(o[0], o[1] if not isinstance(o[1], (dict, list)) else (o[1]['rep'] if isinstance(o[1], dict) else (idx_show(idx_unjson(o[1])) if o[0] == 'getitem' else o[1]))) for o in ops]}")
     # ---- expected parameters, by the same operations on the random vector
     m2, S2, sc = mu.copy(), S.copy(), 1.0
+    names = []
     for name, arg in ops:
+        names.append(name + (_sclass(arg) if name != "getitem" else
+                             "(" + _getitem_class(idx_plain(idx_unjson(arg)), m2.shape) + ")"))
         if isinstance(arg, bool):
             arg = int(arg)
         if name == "mul":
@@ -1815,19 +1950,20 @@ def run_hist(case):
             m2, S2 = np.expand_dims(m2, dim), np.expand_dims(S2, dim)
         elif name == "jitter":
             S2 = S2 + arg * np.eye(m2.shape[-1])
-        elif name == "getitem":   # batch entries: ints / slices; event entry: slice or one list
-            full = _expand_ellipsis(list(idx_plain(idx_unjson(arg))), m2.ndim)
-            ev = full[-1]
-            m2 = m2[tuple(full[:-1])][..., ev]
-            S2 = S2[tuple(full[:-1])]
-            S2 = S2[..., ev, :][..., :, ev]
-        elif name == "use":
+        elif name == "getitem":   # any index form that leaves >= 1 dimension and has at most one index list (no pairing):
+            # the marginal of the selected components, by torch indexing of position tags (an int in the event position
+            # makes the former last batch dimension the event dimension, with a diagonal covariance)
+            gi = idx_unjson(arg)
+            m2, S2, amb_ = getitem_reference(np.array(m2), np.array(S2), idx_plain(gi), gi)[:3]
+            assert S2 is not None and not amb_.any(), "history generator: 0-dim or paired index"
+        elif name in ("use", "indep"):
             pass
+    opsname = "+".join(names)
     m2, S2 = np.array(m2), np.array(S2)
     B2, n2 = m2.shape[:-1], m2.shape[-1]
     singular = sc == 0.0
     sd2 = np.sqrt(np.abs(np.diagonal(S2, axis1=-2, axis2=-1)))
-    z2 = z[..., :n2] if z.shape[:-1] == B2 else np.broadcast_to(z.reshape((-1, n))[0][:n2], B2 + (n2,))
+    z2 = z[..., :n2] if (z.shape[:-1] == B2 and n2 <= n) else np.broadcast_to(np.resize(z.reshape(-1), n2), B2 + (n2,))
     v0 = mu + z
     v2 = m2 + sc * z2
     err, out, stage = None, {}, "construct"
@@ -1867,51 +2003,17 @@ def run_hist(case):
                     r = r[idx_real(idx_unjson(arg))]
                 elif name == "use":
                     _use(r, arg, r.mean, int(r.base_sample_shape[-1]))
+                elif name == "indep":
+                    r = r.to_data_independent_dist()
             stage = "use-after"
             out["batch"] = tuple(r.batch_shape)
             out["mean"] = r.mean.detach().numpy()
-            out["cov"] = r.covariance_matrix.detach().numpy()
-            out["var"] = r.variance.detach().numpy()
-            out["sd"] = r.stddev.detach().numpy()
-            out["floor"] = _min_var()
-            if not singular:
-                tv2 = torch.tensor(v2, dtype=torch.float64)
-                # CG on a covariance scaled far away from 1 is limited by absolute thresholds inside linear_operator's
-                # CG (outside /repo): the quad-only CG path is exercised for moderate scales only
-                # (DiagLinearOperator has an exact inv_quad_logdet of its own that ignores skip_logdet_forward)
-                out["cfgs"] = [c for c in LP_CFGS if c != "cg-quad" or (1e-3 <= sc <= 1e3 and rep != "diag")]
-                for cfg in out["cfgs"]:
-                    try:
-                        with _cfg_ctx(cfg):
-                            out["lp:" + cfg] = r.log_prob(tv2).detach().numpy()
-                    except Exception as e:
-                        out["lp:" + cfg] = e
-                try:
-                    out["entropy"] = r.entropy().detach().numpy()
-                except Exception as e:
-                    out["entropy"] = e
-                try:
-                    out["tril"] = r.scale_tril.detach().numpy()
-                except Exception as e:
-                    out["tril"] = e
-                try:
-                    kr = int(r.base_sample_shape[-1])
-                    cols = []
-                    for j in range(kr):
-                        u = np.zeros(B2 + (kr,))
-                        u[..., j] = 1.0
-                        cols.append(r.rsample(base_samples=torch.tensor(u)).detach().numpy() - out["mean"])
-                    out["X"] = np.stack(cols, -1)
-                    out["Xverdict"] = _root_split(r, out["X"], S2) if out["X"].shape[:-1] == B2 + (n2,) else ("gpytorch", float("nan"))
-                except Exception as e:
-                    out["X"] = e
-                    try:   # did the primitive break its contract (R R^T = A, for a non-root operator an n x n root)?
-                        R = r.lazy_covariance_matrix.root_decomposition().root.to_dense().detach().numpy()
-                        Rb = np.broadcast_to(R, B2 + R.shape[-2:])
-                        if not _relclose(Rb @ np.swapaxes(Rb, -1, -2), S2, _cov_scale(S2), 1e-7):
-                            out["Xprim"] = float(np.max(np.abs(Rb @ np.swapaxes(Rb, -1, -2) - S2)))
-                    except Exception:
-                        pass
+            if indep:
+                out["floor"] = _min_var()
+                out["sd"] = r.stddev.detach().numpy()
+                out["ilp"] = r.log_prob(torch.tensor(v2, dtype=torch.float64)).detach().numpy()
+            else:
+                _hist_consume(r, rep, out, v2, S2, B2, n2, sc, singular)
             # the source distribution must be what it was
             out["src_mean"], out["src_cov"] = d.mean.detach().numpy(), d.covariance_matrix.detach().numpy()
             try:
@@ -1922,7 +2024,7 @@ def run_hist(case):
     except Exception as e:
         err = e
     lines, slots = [], []
-    if not singular:
+    if not singular and not indep:
         for b in itertools.product(*[range(t) for t in B2]):
             lines.append(f"logprob {C.mat_tokens(S2[b])} {C.vec_tokens(m2[b])} {C.vec_tokens(v2[b])}")
             slots.append(("r", b))
@@ -1955,11 +2057,21 @@ def run_hist(case):
                 ent_exp[b] = 0.5 * (n2 * (1 + math.log(2 * math.pi)) + ld)
             else:
                 src_exp[b] = -0.5 * (quad + ld + n * math.log(2 * math.pi))
-        if out["batch"] != tuple(B2):
-            fail("batch-shape", f"batch_shape {out['batch']}, expected {tuple(B2)}")
+        if out["batch"] != tuple(B2) + ((n2,) if indep else ()):
+            fail("batch-shape", f"batch_shape {out['batch']}, expected {tuple(B2) + ((n2,) if indep else ())}")
             return res
         if not _relclose(out["mean"], m2, np.maximum(np.abs(m2), sd2)):
             fail("mean", "mean of the result differs from the mean of the transformed random vector")
+        if indep:      # Normal(mean, stddev) with stddev^2 = max(diag(covariance), min_variance), componentwise
+            var_i = np.maximum(np.diagonal(S2, axis1=-2, axis2=-1), out["floor"])
+            if not _relclose(out["sd"] ** 2, var_i, np.abs(var_i)):
+                fail("stddev", f"stddev^2 of the independent Normal differs from max(diag(covariance), min_variance={out['floor']})")
+            want = -0.5 * ((v2 - m2) ** 2 / var_i + np.log(var_i) + math.log(2 * math.pi))
+            got = out["ilp"]
+            if got.shape != want.shape or not np.all(np.abs(got - want) <= ATOL + RTOL * np.maximum(1.0, np.abs(want))):
+                fail("logprob", f"log_prob of the independent Normal = {got.reshape(-1)[:3].tolist()}, componentwise Gaussian "
+                     f"log density {want.reshape(-1)[:3].tolist()}")
+            return _hist_source_checks(res, fail, out, src_mean, src_cov, mu, S, src_exp)
         if not _relclose(out["cov"], S2, _cov_scale(S2)):
             fail("covariance", f"covariance_matrix of the result differs from the transformed covariance "
                  f"(max dev {np.max(np.abs(out['cov'] - S2)) if out['cov'].shape == S2.shape else 'shape'})")
@@ -2010,15 +2122,7 @@ def run_hist(case):
                 res["assumption"] = (f"linear_operator root_decomposition() of {opsname} result ({rep}) violates R R^T = A "
                                      f"(max dev {out['Xverdict'][1]:.3g}); rsample used exactly that root")
                 res["prim"] = f"root_decomposition:{rep}:{opsname}"
-        if not (_allclose(out["src_mean"], src_mean) and _allclose(out["src_cov"], src_cov)
-                and _allclose(src_mean, mu) and _allclose(src_cov, S)):
-            fail("source-changed", "the operand distribution's mean/covariance changed")
-        got = out["src_lp"]
-        if isinstance(got, Exception) or got.shape != src_exp.shape or \
-                not np.all(np.abs(got - src_exp) <= ATOL + RTOL * np.maximum(1.0, np.abs(src_exp))):
-            fail("source-changed", f"log_prob of the operand after the operation = "
-                 f"{got if isinstance(got, Exception) else got.reshape(-1)[:3].tolist()}, expected {src_exp.reshape(-1)[:3].tolist()}")
-        return res
+        return _hist_source_checks(res, fail, out, src_mean, src_cov, mu, S, src_exp)
     return lines, judge
 
 
@@ -2063,6 +2167,118 @@ def hist_cases(ctx, rng):
                                [["getitem", idx_json(([n - 1, 0],))], ["mul", neg]]]
                 for ops in (others if not quick else rng.sample(others, 6)):
                     out.append(dict(base(), ops=ops))
+    return out
+
+
+# =============================================================== "warm then derive" histories
+#
+# On a PARENT object first touch every cached quantity (scale_tril / Cholesky-path log_prob / fast log_prob / rsample with and
+# without base samples / variance / stddev / covariance_matrix / entropy / precision_matrix / the operator's cholesky,
+# root_decomposition, root_inv_decomposition), THEN derive a child by every operation (`__getitem__` with every index form,
+# expand, unsqueeze, `+` scalar / MVN, `*`, `/`, add_jitter, to_data_independent_dist) and judge every accessor of the
+# CHILD (run_hist: mean, covariance, variance, stddev, log_prob on three paths, entropy, scale_tril, rsample unit-vector
+# stack) against the dense marginal / transformed distribution; the parent must be unchanged.  A cached factor of the
+# parent that is carried over to the child (as expand / unsqueeze legitimately do) must be a factor of the CHILD's covariance.
+
+def _warm_getitem_indices(batch, n, rng, deep):
+    """Index expressions (no pairing of advanced indices, >= 1 dimension left, non-empty, no repeated event component):
+    every event form {leading / offset / stepped / negative-bound slices, index lists and tensors in any order, ints} x
+    batch prefixes {int, negative int, `:`, offset slice, index list}, batch-only forms, ellipsis forms."""
+    nb = len(batch)
+    ev_sl = [slice(None), slice(None, n - 1), slice(1, None), slice(1, n - 1), slice(None, None, 2), slice(1, None, 2),
+             slice(-2, None), slice(None, None, 3), slice(n - 1, None)]
+    ev_li = [[n - 1, 0], [1], ("tensor", [2, 0, 1]), ("tensor", [0, n - 1]), list(range(n - 1, -1, -1)), [-1, 1]]
+    ev_int = [0, -1, n - 2]
+
+    def bpre(s):
+        return [0, -1, slice(None), slice(1, None), [s - 1, 0], ("tensor", [0])]
+    out = []
+    if nb == 0:
+        out += [(e,) for e in ev_sl + ev_li] + [(Ellipsis, e) for e in (ev_sl[2], ev_sl[4], ev_li[0])] + [(ev_sl[3], Ellipsis)]
+        return out
+    pres = list(itertools.product(*[bpre(s) for s in batch]))
+    # at most one advanced index in the whole expression
+    pres_basic = [p for p in pres if not any(isinstance(i, (list, tuple)) for i in p)]
+    pres_one = [p for p in pres if sum(isinstance(i, (list, tuple)) for i in p) == 1]
+    # batch-only
+    for k in range(1, nb + 1):
+        for p in (pres_basic + pres_one if deep else rng.sample(pres_basic, min(4, len(pres_basic))) + rng.sample(pres_one, 2)):
+            out.append(tuple(p[:k]))
+    out += [(Ellipsis,), (0, Ellipsis), (Ellipsis, slice(None))]
+    for j, e in enumerate(ev_sl + ev_li + ev_int):
+        adv = isinstance(e, (list, tuple))
+        pool = pres_basic if adv else pres_basic + pres_one
+        if isinstance(e, int):      # an int in the event position: keep at least one batch dimension
+            pool = [p for p in pool if any(not isinstance(i, int) for i in p)]
+        chosen = pool if deep else [pool[(j * 5 + 1) % len(pool)], rng.choice(pool)]
+        for p in chosen:
+            if isinstance(e, int) and not any(not isinstance(i, int) for i in p):
+                continue
+            out.append(tuple(p) + (e,))
+        out.append((Ellipsis, e))
+        if nb == 2 and (deep or j % 3 == 0):
+            out.append((0, Ellipsis, e))
+    seen, uniq = set(), []
+    for i in out:
+        k = repr(idx_json(i))
+        if k not in seen:
+            seen.add(k)
+            uniq.append(i)
+    return uniq
+
+
+def warm_cases(ctx, rng, deep=False):
+    """quick: full index-form list (one rotating batch prefix + the ellipsis form per event form) under the ALL-caches warm-up
+    for `dense` and `lazy`, samples for the other representations and for single warm-ups; thorough: the full prefix x event
+    product for `dense` / `lazy`, the list for the others, every single warm-up sampled; deep (started by `search` /
+    `correspondence` when a proof or the translation of `__getitem__` broke): the full product for every representation."""
+    quick = ctx.tier == "quick" and not deep
+    out = []
+    ALL = list(WARMERS)
+    singles = [[w] for w in WARMERS]
+    for rep in REPS_ALL:
+        heavy = rep in ("dense", "lazy")
+        batches = [(), (2,), (2, 3)] + ([(2, 1, 2)] if not quick else [])
+        if quick and not heavy:
+            batches = [(), rng.choice([(2,), (2, 3)])]
+        for b in batches:
+            def P(n, bb=b, rp=rep):
+                mu, A, S = gen_params(rng, bb, n, kind=_kind(rp))
+                return {"rep": rp, "mu": mu, "S": S, "A": A}
+
+            def base(n, pre):
+                return dict(P(n), kind="hist", pre=pre, z=_dyadic(rng, tuple(b) + (n,), -12, 12, 8))
+            if deep:
+                pres = [ALL] + singles
+            elif quick:
+                pres = [ALL] + rng.sample(singles[:3], 1) + (rng.sample(singles[3:], 1) if heavy else [])
+            else:
+                pres = [ALL] + singles
+            for pi, pre in enumerate(pres):
+                n = rng.choice((4, 5))
+                full_product = (deep and len(b) <= 2) or (not quick and pi == 0 and heavy and len(b) <= 2)
+                idxs = _warm_getitem_indices(b, n, rng, full_product)
+                if pi > 0 and not deep:
+                    idxs = rng.sample(idxs, min(6 if heavy else 4, len(idxs)))
+                elif quick and not heavy:
+                    idxs = rng.sample(idxs, min(10, len(idxs)))
+                for idx in idxs:
+                    out.append(dict(base(n, pre), ops=[["getitem", idx_json(idx)]]))
+                if pi > 0 and (quick or pi > 4):
+                    continue
+                neg = rng.choice([-2, -0.5, -3.0])
+                n = rng.randint(3, 4)
+                derive = [[["expand", list((2,) + b)]], [["expand", list((3, 1) + b)]], [["unsqueeze", 0]], [["unsqueeze", -1]],
+                          [["add_scalar", -1.5]], [["radd_scalar", 2]], [["mul", neg]], [["mul", 3]], [["div", neg]],
+                          [["jitter", 0.25]], [["sum", P(n, b, rng.choice(REPS_ALL))]], [["sum", P(n, b, rep)]], [["indep", None]],
+                          [["getitem", idx_json((Ellipsis, slice(1, None)))], ["indep", None]],
+                          [["getitem", idx_json((Ellipsis, slice(1, None)))], ["use", "scale_tril"],
+                           ["getitem", idx_json((Ellipsis, slice(1, None)))]],
+                          [["expand", list((2,) + b)], ["getitem", idx_json((Ellipsis, slice(None, None, 2)))]],
+                          [["unsqueeze", 0], ["getitem", idx_json((0, Ellipsis, [n - 1, 0]))]],
+                          [["mul", neg], ["getitem", idx_json((Ellipsis, slice(1, None)))]]]
+                for ops in (derive if (heavy or not quick) else rng.sample(derive, 6)):
+                    out.append(dict(base(n, pre), ops=ops))
     return out
 
 
